@@ -240,7 +240,9 @@ class Ranges:
         rng = self.ranges
         if len(rng) <= 1:
             return self
-        it = range(min(r['n1'] for r in rng), max(r['n2'] for r in rng) + 1)
+        it = range(
+            max(1, min(r['n1'] for r in rng)), max(r['n2'] for r in rng) + 1
+        )
         it = ['{0}:{0}'.format(_index2col(c)) for c in it]
         cols = Ranges()
         for sheet_id in sorted(set(r['sheet_id'] for r in rng)):
